@@ -12,6 +12,7 @@
 -/
 import Ladybug.Proofs.C12Lemmas
 import Ladybug.Proofs.C12Files
+import Ladybug.Proofs.C12Obj
 
 open Cal
 
@@ -1034,5 +1035,237 @@ theorem C12_to_constant (body : List (List String)) (v : Int) :
 theorem C12_count_timesteps (n : Nat) : countTimesteps (6 + n) = n := by
   unfold countTimesteps; omega
 
+
+/-! ### One object, a history of operations (round 3; model: Model/WeaObj.lean) -/
+
+/-- **A refused operation changes nothing.**  When a setter of the Wea rejects its argument (not a
+    `Location`; not an hourly collection, not aligned with the other collection, wrong data type) the
+    object after the attempt is the object before it, so every observation C12 speaks about (public
+    datetimes, file lines, header, dictionary datetimes, alignment) is unchanged. -/
+theorem C12_refused_preserves (o : Obj) (op : Op) (e : E) (h : (step o op).2 = .refused e) :
+    (step o op).1 = o ∧ (step o op).1.observe = o.observe := by
+  have key : (step o op).1 = o := by
+    cases op with
+    | setOnHour b => simp [step] at h
+    | setLoc l => cases l <;> simp [step] at h ⊢
+    | read => rfl
+    | setDni c =>
+      simp only [step] at h ⊢
+      split at h
+      · cases h
+      · next hacc => simp only [hacc]; rfl
+    | setDhi c =>
+      simp only [step] at h ⊢
+      split at h
+      · cases h
+      · next hacc => simp only [hacc]; rfl
+  exact ⟨key, by rw [key]⟩
+
+example : (step ⟨tLoc, tDni, tDhi, false, 1, false⟩ (.setDni ⟨true, true, { tDni with vals := [1] }⟩)).2
+    = .refused .assert := by rfl
+
+/-- **Reading is pure.**  A read returns the observation of the current state and leaves the object
+    as it is; hence reads can be repeated, reordered or dropped without any effect on later
+    observations (`C12_reads_do_not_matter`). -/
+theorem C12_read_pure (o : Obj) : step o .read = (o, .obs o.observe) := rfl
+
+/-- Dropping every read from a history does not change the object the history ends in. -/
+theorem C12_reads_do_not_matter (ops : List Op) : ∀ (o : Obj),
+    run o (ops.filter fun op => decide (op ≠ .read)) = run o ops := by
+  induction ops with
+  | nil => intro o; rfl
+  | cons op rest ih =>
+    intro o
+    by_cases hr : op = .read
+    · subst hr
+      simp only [List.filter, ne_eq, not_true_eq_false, decide_false]
+      exact ih o
+    · simp only [List.filter, ne_eq, hr, not_false_eq_true, decide_true]
+      exact ih (step o op).1
+
+/-- **Every history refines the fresh object.**  Take a Wea built by the constructor and apply any
+    history of `enforce_on_hour` / `location` / collection assignments (accepted or refused) and reads.
+    Provided every discontinuous collection assigned to `direct_normal_irradiance` carries the Wea's
+    timestep and leap flag in its header (`HistFits`; continuous ones need no condition), the object the
+    history ends in IS the object the constructor builds from the final public state (location, the two
+    collections, enforce_on_hour) – so every observation after the history equals the observation of
+    that fresh object: the slots `_timestep` / `_is_leap_year` filled in `__init__` never go stale.
+    Induction over the history. -/
+theorem C12_history_refines_fresh (loc : Loc) (dni dhi : Coll1) (o₀ : Obj) (h0 : Obj.mk? loc dni dhi = .ok o₀)
+    (ops : List Op) (hf : HistFits o₀ ops) :
+    Pub.fresh (o₀.pub.applyAll ops) = .ok (run o₀ ops) ∧
+      ∀ f, Pub.fresh (o₀.pub.applyAll ops) = .ok f → f.observe = (run o₀ ops).observe := by
+  have h := run_inv_pub ops o₀ (mk?_inv loc dni dhi o₀ h0) hf
+  have hfresh := fresh_of_inv _ h.1
+  rw [h.2] at hfresh
+  refine ⟨hfresh, ?_⟩
+  intro f hfe
+  rw [hfresh] at hfe
+  cases hfe
+  rfl
+
+example : HistFits ⟨tLoc, tDni, tDhi, false, 1, false⟩
+    [.setOnHour true, .setDni ⟨true, true, { tDni with vals := [7, 8] }⟩, .read, .setLoc none] := by
+  refine ⟨trivial, ⟨?_, trivial, trivial, trivial⟩⟩
+  intro _
+  decide
+
+/-- **The header condition is needed (counterexample, as the code is).**  `is_collection_aligned` of
+    discontinuous collections compares datetimes only, so a discontinuous collection with the same
+    datetimes but a header of 2 steps per hour is ACCEPTED by the `direct_normal_irradiance` setter; the
+    slot `_timestep` stays 1 and the Wea goes on reporting the half hour (08:30) where the Wea built from
+    the same two collections reports 08:00.  (Known finding C12-setter-stale-timestep.) -/
+theorem C12_history_stale_timestep_counterexample :
+    ∃ (o₀ : Obj) (ops : List Op) (f : Obj), o₀.Inv ∧ Pub.fresh (o₀.pub.applyAll ops) = .ok f ∧
+      f.observe.publicDts ≠ (run o₀ ops).observe.publicDts := by
+  refine ⟨⟨tLoc, tDni, tDhi, false, 1, false⟩, [.setDni ⟨true, true, tDni2⟩],
+    ⟨tLoc, tDni2, tDhi, false, 2, false⟩, ⟨rfl, rfl, by decide⟩, by decide +kernel, by decide +kernel⟩
+
+/-- **After any history the two collections are aligned, step by step.**  For a Wea built by the
+    constructor from two collections whose continuous members carry the datetimes of their header
+    period (`Coll1.WF`), after ANY history of accepted and refused operations the datetimes of the diffuse
+    collection are the datetimes of the direct collection and both hold one value per datetime. -/
+theorem C12_history_aligned (loc : Loc) (dni dhi : Coll1) (o₀ : Obj) (h0 : Obj.mk? loc dni dhi = .ok o₀)
+    (hw1 : dni.WF) (hw2 : dhi.WF) (ops : List Op) (hf : HistFits o₀ ops) (hc : ∀ op ∈ ops, op.candWF) :
+    (run o₀ ops).dhi.dts = (run o₀ ops).dni.dts ∧ (run o₀ ops).dhi.vals.length = (run o₀ ops).dni.vals.length := by
+  have hinv := (run_inv_pub ops o₀ (mk?_inv loc dni dhi o₀ h0) hf).1
+  have e0 : o₀.dni = dni ∧ o₀.dhi = dhi := by
+    unfold Obj.mk? at h0
+    split at h0
+    · cases h0; exact ⟨rfl, rfl⟩
+    · cases h0
+  have hw := run_wf ops o₀ (by rw [e0.1]; exact hw1) (by rw [e0.2]; exact hw2) hc
+  have := aligned_dts _ _ hw.1 hw.2 hinv.2.2
+  exact ⟨this.1.symm, this.2.symm⟩
+
+/-- **`enforce_on_hour` has no effect on sub-hourly data, whatever the history.**  On an object whose
+    timestep slot is not 1, assigning `enforce_on_hour` (any value, any number of times) changes neither the
+    public datetimes nor the lines of the file form: sub-hourly data stays on its own grid. -/
+theorem C12_on_hour_subhourly (o : Obj) (b : Bool) (hts : o.tsSlot ≠ 1) :
+    (step o (.setOnHour b)).1.observe.publicDts = o.observe.publicDts ∧
+      (step o (.setOnHour b)).1.observe.lines = o.observe.lines := by
+  have hs : ∀ x : Bool, shift o.tsSlot x = 0 := by
+    intro x; unfold shift; simp [hts]
+  have hd : ∀ x : Bool, ({ o with onHour := x } : Obj).asW.datetimes = o.dni.dts.map fun d => fromMoy d.leap ((d.moy + 0 : Nat) : Int) := by
+    intro x
+    simp only [W.datetimes, Obj.asW, hs]
+  have e1 : (step o (.setOnHour b)).1.asW.datetimes = o.asW.datetimes := by
+    show ({ o with onHour := b } : Obj).asW.datetimes = _
+    rw [hd b]
+    have := hd o.onHour
+    simpa using this.symm
+  refine ⟨e1, ?_⟩
+  show toLines (step o (.setOnHour b)).1.asW = toLines o.asW
+  unfold toLines
+  rw [e1]
+  rfl
+
+example : (step ⟨tLoc, tDni2, tDhi, false, 2, false⟩ (.setOnHour true)).1.observe.publicDts
+    = [.ok ⟨3, 1, 8, 0, false⟩, .ok ⟨3, 1, 9, 0, false⟩] := by decide +kernel
+
+/-- **With the slots in step every earlier theorem applies after a history**: the view of the object that
+    the pure functions (`toLines`, `W.datetimes`, `toDict`, `fromFile ∘ toLines` …) see is exactly the pair of
+    collections the user established, under `enforce_on_hour`. -/
+theorem C12_history_view (loc : Loc) (dni dhi : Coll1) (o₀ : Obj) (h0 : Obj.mk? loc dni dhi = .ok o₀)
+    (ops : List Op) (hf : HistFits o₀ ops) :
+    (run o₀ ops).asW = ⟨(run o₀ ops).dni.cont, (run o₀ ops).dni.ap, (run o₀ ops).dni.dts, (run o₀ ops).dni.vals,
+      (run o₀ ops).dhi.vals, (run o₀ ops).onHour⟩ :=
+  asW_of_inv _ (run_inv_pub ops o₀ (mk?_inv loc dni dhi o₀ h0) hf).1
+
+/-! ### `EPW.to_wea` -/
+
+theorem milli_half (h : Nat) (hh : h < 24) : milliOf h 30 = h * 1000 + 500 := by
+  have key : ((List.range 24).all fun h => milliOf h 30 == h * 1000 + 500) = true := by decide +kernel
+  rw [List.all_eq_true] at key
+  have := key h (List.mem_range.mpr hh)
+  exact beq_iff_eq.mp this
+
+theorem annual_hourly_minute (leap : Bool) (d : DT) (hd : d ∈ contDts (AP.annual leap 1)) :
+    d.valid ∧ d.minute = 0 ∧ d.leap = leap := by
+  obtain ⟨hwf, hnr, hst, hen, hstep, hn⟩ := annual_facts 1 (by decide) leap
+  obtain ⟨hv, hl, hm⟩ := contDts_valid (AP.annual leap 1) hwf d hd
+  have hmoys := moys_wholeDay (AP.annual leap 1) hwf rfl rfl hnr
+  rw [hst, hstep] at hmoys
+  rw [hmoys] at hm
+  unfold prog at hm
+  obtain ⟨k, _, hk⟩ := List.mem_map.mp hm
+  refine ⟨hv, ?_, hl⟩
+  obtain ⟨_, _, _, _, _, h6⟩ := hv
+  have : d.moy = d.intHoy * 60 + d.minute := by simp [DT.moy]
+  omega
+
+theorem epw_lines_abstract (dts : List DT) (dni dhi : List Rat) (h1 : dni.length = dts.length)
+    (h2 : dhi.length = dts.length) (hd : ∀ d ∈ dts, d.minute = 0 ∧ d.hour < 24) :
+    (List.range dts.length).mapM (epwAt dts dni dhi)
+      = .ok ((List.zip (dts.map fun d => (.ok (pubDT 1 false d) : Except Cal.Err DT)) (List.zip dni dhi)).map lineOf) := by
+  rw [mapM_eq_map _ (fun h => epwLine (dts[h]?.getD default) (dni[h]?.getD 0) (dhi[h]?.getD 0))]
+  · congr 1
+    apply List.ext_getElem?
+    intro i
+    by_cases hi : i < dts.length
+    · have hi1 : i < dni.length := by omega
+      have hi2 : i < dhi.length := by omega
+      obtain ⟨hm, hh⟩ := hd dts[i] (List.getElem_mem _)
+      simp [hi, hi1, hi2, lineOf, dtGet, fmtLine, epwLine, pubDT, shift, hm, milli_half _ hh]
+    · simp [hi]
+  · intro x hx
+    have hx' : x < dts.length := List.mem_range.mp hx
+    have hi1 : x < dni.length := by omega
+    have hi2 : x < dhi.length := by omega
+    simp [epwAt, hx', hi1, hi2]
+
+
+/-- **`EPW.to_wea` writes the file of the Wea made from the same EPW** (annual export, model level): on the
+    cells of the two irradiance columns, the lines of `EPW.to_wea(path)` – month, day, `hour + 0.5`, `%d` of both
+    cells – are exactly the lines of `to_file_string()` of the annual hourly Wea built from those cells
+    (`from_annual_values` = the `timestep = 1` path of `Wea.from_epw_file`, hence of `epw-to-wea`), for normal and
+    leap years.  (Unit state of the EPW object and the listed-hours form are compared, not proved.) -/
+theorem C12_epw_to_wea_annual (leap : Bool) (dni dhi : List Rat) (w : W Rat)
+    (h : fromAnnualValues dni dhi ((1 : Nat) : Int) leap = .ok w) :
+    epwToWea leap dni dhi [] = toLines w := by
+  obtain ⟨_, _, hd1, hd2, hap, _, hoh, hl1, hl2⟩ := C12_time_axis 1 (by decide) leap dni dhi w h
+  obtain ⟨hwf, _⟩ := annual_facts 1 (by decide) leap
+  have hw : w.dts = contDts (AP.annual leap 1) := by
+    have h' : mkCont (AP.annual leap 1) dni dhi = .ok w := by
+      have := h
+      unfold fromAnnualValues at this
+      rw [annualAP_ok 1 (by decide) leap] at this
+      exact this
+    rw [(mkCont_inv _ _ _ _ h').2.2]
+  have hlen : (contDts (AP.annual leap 1)).length = hoursInYear leap * 1 := by
+    rw [contDts_length _ hwf, ← AP.C04_len _ hwf]
+    have h' : mkCont (AP.annual leap 1) dni dhi = .ok w := by
+      have := h
+      unfold fromAnnualValues at this
+      rw [annualAP_ok 1 (by decide) leap] at this
+      exact this
+    rw [← (mkCont_inv _ _ _ _ h').1, hl1]
+  -- the public datetimes all exist: hourly steps sit on the hour
+  have hF : ∀ d ∈ contDts (AP.annual leap 1),
+      fromMoy d.leap ((d.moy + shift 1 false : Nat) : Int) = .ok (pubDT 1 false d) := by
+    intro d hd
+    obtain ⟨hv, hm, _⟩ := annual_hourly_minute leap d hd
+    exact (pubDT_ok 1 false d hv (fun _ => hm)).2
+  have hdt : w.datetimes = (contDts (AP.annual leap 1)).map fun d => (.ok (pubDT 1 false d) : Except Cal.Err DT) := by
+    unfold W.datetimes
+    rw [hw, hap, hoh]
+    apply List.map_congr_left
+    intro d hd
+    exact hF d hd
+  have hall : ∀ r ∈ w.datetimes, ∃ d, r = .ok d := by
+    intro r hr
+    rw [hdt] at hr
+    obtain ⟨d, _, hd⟩ := List.mem_map.mp hr
+    exact ⟨_, hd.symm⟩
+  rw [toLines_eq w hall, hdt, hd1, hd2]
+  -- the EPW side
+  unfold epwToWea
+  simp only [List.isEmpty_nil, if_true]
+  exact epw_lines_abstract _ dni dhi (by omega) (by omega) (fun d hd => by
+    obtain ⟨hv, hm, _⟩ := annual_hourly_minute leap d hd
+    obtain ⟨_, _, _, _, h5, _⟩ := hv
+    exact ⟨hm, by omega⟩)
+
+example : (epwToWea false [1, 2] [3, 4] [1]) = .ok [⟨1, 1, 1500, 2, 4⟩] := by decide +kernel
 
 end Wea
